@@ -470,10 +470,13 @@ func (t *TreeBuilder) writeTree(entries []treeNode) (Hash, error) {
 			// TODO: support entryBlob's permissions here
 			input += "100644 blob " + entry.gitID.String() + "\t" + entry.name
 		}
-		input += "\n"
+		// NUL-terminated records (-z): names are taken verbatim. With
+		// newline-terminated records Git unquotes names that start with a
+		// double quote, and a name cannot contain a newline.
+		input += "\x00"
 	}
 
-	stdOut, err := t.repo.executor("mktree").withStdIn(bytes.NewBufferString(input)).executeString()
+	stdOut, err := t.repo.executor("mktree", "-z").withStdIn(bytes.NewBufferString(input)).executeString()
 	if err != nil {
 		return ZeroHash, fmt.Errorf("unable to write Git tree: %w", err)
 	}
